@@ -93,6 +93,15 @@ func (e *env) one(uri string, mode ua.MessageSecurityMode, cs int) {
 			if (l-16)%bs != 0 {
 				e.r.Fail(fmt.Sprintf("%s cs=%d", c, cs), "", fmt.Sprintf("encrypted part %d not a whole number of %d-byte blocks", l-16, bs))
 			}
+			// "padded to a whole cipher block": the padding never reaches a full block of
+			// the real cipher (AES: 16 bytes, whatever the algorithm object reports)
+			realBlock := 16
+			if uri == ua.SecurityPolicyURINone {
+				realBlock = 1
+			}
+			if pad := l - (16 + 8 + n + inst.Algo().SignatureLength() + 1); pad < 0 || pad >= realBlock {
+				e.r.Fail(fmt.Sprintf("%s cs=%d", c, cs), "", fmt.Sprintf("%d padding bytes for a %d-byte cipher block: not padded to the next whole block", pad, realBlock))
+			}
 			if n == mb+1 && l <= cs {
 				e.r.Fail(fmt.Sprintf("%s cs=%d", c, cs), "", fmt.Sprintf("maxBody %d is not tight: body %d still fits (%d ≤ %d)", mb, n, l, cs))
 			}
